@@ -12,7 +12,7 @@ SRCS = ["windpyutils/parallel/pools.py", "windpyutils/parallel/maps.py", "windpy
 
 
 class Cfg:
-    def __init__(self, name, kind, workers, calls, cpu_count=2, family=None, required=()):
+    def __init__(self, name, kind, workers, calls, cpu_count=2, family=None, required=(), values=False):
         self.name = name
         self.kind = kind              # fmap | mulp
         self.workers = workers        # <=0: cpu_count
@@ -20,14 +20,28 @@ class Cfg:
         self.cpu_count = cpu_count
         self.family = family or kind
         self.required = list(required)
+        self.values = values          # items are None / falsy / empty values instead of ints (and f wraps them)
 
     def describe(self):
         return {"name": self.name, "kind": self.kind, "workers": self.workers, "calls": self.calls,
-                "cpu_count": self.cpu_count}
+                "cpu_count": self.cpu_count, "values": self.values}
+
+    def data_of(self, k, n):
+        if self.values:
+            return [VALUES[(k + j) % len(VALUES)] for j in range(n)]
+        return [100 * (k + 1) + j for j in range(n)]
+
+    @property
+    def fn(self):
+        return wrap if self.values else f
 
 
-def data_of(k, n):
-    return [100 * (k + 1) + j for j in range(n)]
+# items a map must treat like any other: None (also what the pools use as their own stop token), falsy and empty ones
+VALUES = [0, None, False, None, "", (), None]
+
+
+def wrap(x):
+    return ("w", x)
 
 
 def make_driver(cfg):
@@ -37,19 +51,19 @@ def make_driver(cfg):
         s.user["out"] = out
         if cfg.kind == "fmap":
             M = vmp.load(SRCS[0], "windpyutils.parallel.pools")
-            fm = M.FunctorMap(f, cfg.workers)
+            fm = M.FunctorMap(cfg.fn, cfg.workers)
             with fm:
                 suspended = []
                 pre = {}
                 if any(len(c) > 3 and c[3] == "precreate" for c in cfg.calls):
                     # all call generators are created first (e.g. for itertools.chain), then consumed one after another
                     for k, call in enumerate(cfg.calls):
-                        d0 = data_of(k, call[1])
+                        d0 = cfg.data_of(k, call[1])
                         pre[k] = fm(vmp.LazyInput(d0) if call[0] == "lazy" else d0, call[2])
                 for k, call in enumerate(cfg.calls):
                     ikind, n, cs = call[:3]
                     exact = len(call) > 3 and call[3] == "exact"
-                    data = data_of(k, n)
+                    data = cfg.data_of(k, n)
                     rec = {"data": data, "yielded": [], "finished": False, "cs": cs}
                     out["calls"].append(rec)
                     inp = vmp.LazyInput(data) if ikind == "lazy" else data
@@ -71,11 +85,11 @@ def make_driver(cfg):
             for k, call in enumerate(cfg.calls):
                 ikind, n = call[:2]
                 nworkers = call[2] if len(call) > 2 else cfg.workers      # the worker count may differ per call
-                data = data_of(k, n)
+                data = cfg.data_of(k, n)
                 rec = {"data": data, "yielded": None, "finished": False, "cs": 1}
                 out["calls"].append(rec)
                 inp = vmp.LazyInput(data) if ikind == "lazy" else data
-                res = M.mul_p_map(f, inp, nworkers)
+                res = M.mul_p_map(cfg.fn, inp, nworkers)
                 rec["yielded"] = list(res)
                 rec["finished"] = True
                 rec["leftover"] = leftovers(s)
@@ -104,15 +118,18 @@ def judge(cfg, r):
         v.append(("C05", {"family": fam, "kind": r.outcome, "blocked": bs},
                   "%s: %s: blocked %s" % (cfg.name, r.outcome, bs), {"blocked": r.blocked}))
     for k, rec in enumerate(out["calls"]):
-        exp = [f(x) for x in rec["data"]]
+        exp = [cfg.fn(x) for x in rec["data"]]
         got = rec["yielded"]
         if rec["finished"]:
             bad = got != exp
         else:
             bad = got is not None and got != exp[:len(got)]
         if bad:
-            cls = ("foreign" if any(x not in exp for x in got) else "duplicated" if len(set(got)) != len(got)
-                   else "missing" if set(got) != set(exp) else "reordered")
+            if cfg.values:
+                cls = "missing" if len(got) < len(exp) else "other"
+            else:
+                cls = ("foreign" if any(x not in exp for x in got) else "duplicated" if len(set(got)) != len(got)
+                       else "missing" if set(got) != set(exp) else "reordered")
             v.append(("C05", {"family": fam, "kind": "wrong-output", "class": cls, "call": min(k, 1)},
                       "%s: call %d on %r returned %r, expected %r" % (cfg.name, k, rec["data"], got, exp), {}))
         if rec["finished"] and rec.get("leftover"):
@@ -152,6 +169,7 @@ def plan_for(tier):
     plan.append((Cfg("FM2x[w2,n2 exact;n2]", "fmap", 2, [("list", 2, 1, "exact"), ("list", 2, 1)]), b, 1, None))
     plan.append((Cfg("FM2x[w1,n3cs2 exact;n1;n2]", "fmap", 1, [("list", 3, 2, "exact"), ("list", 1, 1), ("list", 2, 1, "exact")]), b, 1, None))
     plan.append((Cfg("FM2p[w2,n2;n3cs2 precreated]", "fmap", 2, [("list", 2, 1, "precreate"), ("list", 3, 2, "precreate")]), b, 1, None))
+    plan.append((Cfg("FMv[w2,n4,cs2]", "fmap", 2, [("list", 4, 2), ("list", 3, 1)], values=True), 1, 1, None))
     plan.append((Cfg("FM[cpu,n2]", "fmap", -1, [("list", 2, 1)], cpu_count=2), 2, 1, None))
     # mul_p_map: W x n, consecutive calls on the shared class-level queues
     plan.append((Cfg("MP[w1,n2]", "mulp", 1, [("list", 2)], cpu_count=1), None if not q else 3, 1, None))
@@ -162,6 +180,7 @@ def plan_for(tier):
     # consecutive calls with different worker counts (fewer items than workers, then fewer workers)
     plan.append((Cfg("MP2[w2:n1;w1:n2]", "mulp", 2, [("list", 1, 2), ("list", 2, 1)]), 2 if q else 3, 1, None))
     plan.append((Cfg("MP3[w3:n1;w2:n2;w1:n1]", "mulp", 3, [("list", 1, 3), ("list", 2, 2), ("list", 1, 1)], cpu_count=3), 1 if q else 2, 1, None))
+    plan.append((Cfg("MPv[w2,n3]", "mulp", 2, [("list", 3)], values=True), b, 1, None))
     plan.append((Cfg("MP[cpu,n2]", "mulp", -1, [("lazy", 2)], cpu_count=2), 2 if q else 3, 1, None))
     grid = []
     if not q:
@@ -187,7 +206,7 @@ def run(report, tier):
 def replay(rec):
     rp = rec["replay"]
     c = rp["config"]
-    cfg = Cfg(c["name"], c["kind"], c["workers"], [tuple(x) for x in c["calls"]], c["cpu_count"])
+    cfg = Cfg(c["name"], c["kind"], c["workers"], [tuple(x) for x in c["calls"]], c["cpu_count"], values=c.get("values", False))
     from mc.par import pin_self
     pin_self()
     racy = {(tuple(a), b) for a, b in rp["racy"]}
